@@ -41,7 +41,21 @@ func collect(n int, ch chan string) string {
 	return strings.Join(out, "")
 }
 
+// litmusSem is a package-level channel (made at init time, outside any execution) used as a semaphore.
+var litmusSem = make(chan struct{}, 1)
+
 var Programs = []Program{
+	{"package-level channel as a semaphore", false, func() string {
+		res := make(chan string, 2)
+		for _, name := range []string{"a", "b"} {
+			go func() {
+				litmusSem <- struct{}{}
+				res <- name
+				<-litmusSem
+			}()
+		}
+		return <-res + <-res + fmt.Sprint(len(litmusSem) <= 1)
+	}},
 	{"unbuffered ping", false, func() string {
 		c := make(chan int)
 		go func() { c <- 1 }()
